@@ -45,6 +45,14 @@ def rule_r1(ctx):
     ctx.check("R1", "erase never writes self.prev / self.next", not own, er, own[0].stmt if own else er.node,
               "erase overwrites the erased box's own links: an iterator parked on it cannot resume at the original place",
               how="write sites of prev/next classified by receiver")
+    # … nor any other field of the erased box than its value: the iterators' membership test
+    # (`box.owning_list is not self`) is applied to every box they step onto, erased ones included
+    other = [w for w in field_writes(er) if norm(w.recv) == "self" and w.field not in ("value", "prev", "next")]
+    ctx.check("R1", "erase leaves the erased box's owner (and every field but value) untouched", not other, er,
+              other[0].stmt if other else er.node,
+              f"erase rewrites `self.{other[0].field if other else ''}` of the erased box: an iterator that steps onto (or stands on) an erased "
+              "box tests that field before skipping it, so two consecutive removals ahead of an iterator make the iteration raise",
+              how="the only self field written by erase is `value`", nontrivial=False, construct="erase writes another field of the erased box")
     ok = {w.field for w in nb} == {"prev", "next"}
     if ok:
         # prev.next = next ; next.prev = prev  (through locals bound to self.prev / self.next)
